@@ -324,3 +324,51 @@ def run(fns, unit):
     if unit['op'] == 'union':
         return run_union(fns, unit['bq'], unit['br'], unit['shape'], tmo)
     return {'error': 'unknown qf unit'}
+
+
+# --------------------------------------------------------------------------- translator validation
+def eval_concrete_insert(fns, bq, br, members, y):
+    """concrete member set + element through the encoding: unique feasible path, post-state from the model."""
+    NQ, NR = 1 << bq, 1 << br
+    I = QfInterp(fns, 1)
+    I.element_bits = br
+    I.shared = {'ctr': itertools.count(), 'draws': [], 'stat': {}}
+    I.merge_diamonds = True
+    mem = set(tuple(m) for m in members)
+    bits = [[z3.BoolVal((q, r) in mem) for r in range(NR)] for q in range(NQ)]
+    occ, cont, sh, rem = enc_z3(bits, NQ, NR)
+    occ = [z3.simplify(x) for x in occ]
+    cont = [z3.simplify(x) for x in cont]
+    sh = [z3.simplify(x) for x in sh]
+    rem = [z3.simplify(x) for x in rem]
+    world = {'locals': {'self': mk(occ, cont, sh, rem, bv(len(mem)), bq)}}
+    I.world = world
+    fn = I.find(r'quotientfilter::<impl.*>::insert_internal$')
+    res = I.run(fn, [Ref((('local', world, 'self'), [])), bv(y[0]), bv(y[1])], z3.BoolVal(True))
+    found = []
+    for pc, kind, val, snap in res:
+        r, mdl = solve([pc], 60000)
+        if r == z3.sat:
+            found.append((kind, val, snap, mdl))
+    if len(found) != 1:
+        return {'error': 'expected one feasible path, got %d' % len(found)}
+    kind, val, snap, mdl = found[0]
+    if kind == 'panic':
+        return {'result': 'panic'}
+    g = lambda e: mdl.eval(e, model_completion=True)
+    st = snap['self']
+    okv = z3.is_true(g(val.ok))
+    res_s = ('ok_true' if z3.is_true(g(val.payload)) else 'ok_false') if okv else 'err'
+    slots = []
+    for t in range(NQ):
+        slots.append([z3.is_true(g(st.fields[0].bits[t])), z3.is_true(g(st.fields[1].bits[t])), z3.is_true(g(st.fields[2].bits[t])), g(st.fields[3].vals[t]).as_long()])
+    return {'result': res_s, 'slots': slots, 'len': g(st.fields[6]).as_long()}
+
+
+def random_case(rng, bq=2, br=2):
+    NQ, NR = 1 << bq, 1 << br
+    n = rng.randrange(0, NQ + 1)
+    allfp = [(q, r) for q in range(NQ) for r in range(NR)]
+    members = rng.sample(allfp, n)
+    y = rng.choice(allfp)
+    return {'op': 'insert', 'bq': bq, 'br': br, 'members': [list(m) for m in members], 'y': list(y)}
